@@ -109,6 +109,22 @@ def orientations(chk):
         m, t = cl.gen_matrix(rng, maxn=8, exact=rng.random() < 0.7)
         link = rng.choice(cl.LINKS)
         k = len(m)
+        v_ = rng.random()
+        if v_ < 0.2 and k >= 3:
+            # identical items: exact zeros off the diagonal
+            m = [list(r) for r in m]
+            for _z in range(rng.choice([1, 2])):
+                i_, j_ = rng.sample(range(k), 2)
+                m[i_][j_] = m[j_][i_] = 0.0
+            chk.hist['orientations: matrix with zero distances between different items'] += 1
+        elif v_ < 0.45 and k >= 2:
+            # the threshold IS one of the distances (the smallest one, or any): entries with many decimals must compare as they are
+            offd = sorted(m[i_][j_] for i_ in range(k) for j_ in range(i_ + 1, k))
+            t = offd[0] if rng.random() < 0.5 else rng.choice(offd)
+            chk.hist['orientations: threshold equal to an entry'] += 1
+        elif v_ < 0.55:
+            t = rng.choice([0, 0.0])
+            chk.hist['orientations: threshold zero'] += 1
         taxa = ['L%d' % i for i in range(k)]
         base = _cluster.flat_cluster(link, t, [list(r) for r in m])
         rev = _cluster.flat_cluster(link, t, [list(r) for r in m], revert=True)
@@ -205,12 +221,18 @@ def threshold_pairs(chk):
     # the partitions of each linkage have to be nested along the thresholds
     sweeps = []
     for m, t1, t2 in pairs[::chk.n(6, 2)]:
+        if rng.random() < 0.3 and len(m) >= 4:
+            m = [list(r) for r in m]
+            for _z in range(rng.choice([1, 2])):
+                i_, j_ = rng.sample(range(len(m)), 2)
+                m[i_][j_] = m[j_][i_] = 0.0          # identical items
         shared = rng.choice([lambda: [list(r) for r in m], lambda: __import__('numpy').array([list(map(float, r)) for r in m])])()
         order = list(cl.LINKS)
         rng.shuffle(order)
         vals = sorted(set(v for r in m for v in r))
         ts = sorted(set([t1, t2] + rng.sample(vals, min(2, len(vals)))))
         got = {l: [] for l in cl.LINKS}
+        got['flat_upgma'] = []
         calls = []
         try:
             for t in ts:
@@ -219,10 +241,14 @@ def threshold_pairs(chk):
                     got[link].append((t, sorted(sorted(v) for v in res.values())))
                     calls.append((link, t))
                     chk.evaluations += 1
+                # the public average-linkage entry point next to the dispatcher
+                res = clustering.flat_upgma(t, shared)
+                got['flat_upgma'].append((t, sorted(sorted(v) for v in res.values())))
+                calls.append(('flat_upgma', t))
         except Exception as ex:  # noqa
             sweeps.append((order[0], m, ts[0], ts[-1], 'raised %s' % type(ex).__name__, calls))
             continue
-        for link in cl.LINKS:
+        for link in list(cl.LINKS) + ['flat_upgma']:
             for (ta, pa), (tb, pb) in zip(got[link], got[link][1:]):
                 if not cl.refines(pa, pb):
                     sweeps.append((link, m, ta, tb, 'clusters %r at %r are not nested in clusters %r at %r' % (pa, ta, pb, tb), calls))
